@@ -302,6 +302,18 @@ func R28() Rule {
 				if cl == nil {
 					continue
 				}
+				// only binary searches over a column's cells (the predicate reads a cell timestamp)
+				readsTs := false
+				for _, b := range cl.Blocks {
+					for _, in := range b.Instrs {
+						if v, isV := in.(ssa.Value); isV && isCellTs(v) {
+							readsTs = true
+						}
+					}
+				}
+				if !readsTs {
+					continue
+				}
 				nSearch++
 				ok, why := tsComparison(cl, func(l, r ssa.Value, op token.Token) bool {
 					lc, rc := isCellTs(l), isCellTs(r)
